@@ -29,6 +29,10 @@ type HistCfg struct {
 	WideDates     bool // allow 1900–2100 starts
 	Unicode       bool
 	MultiLineDesc bool
+	// Large: a ledger of realistic size instead of a small example: 60-200 accounts (deep paths, long segment
+	// names), 10-40 commodities, bursts of hundreds of directives on one day, 16+ bookings in a transaction,
+	// quantities beyond 2^53. MaxActions is the caller's choice (300-1500).
+	Large bool
 }
 
 var segPoolASCII = []string{"Bank", "Cash", "Broker", "Aktien", "A1", "Salary", "Food", "Rent", "Loan", "Card", "Opening", "Sub", "X", "Y2", "Deep", "B", "Assets", "AssetsPool", "Liabilities", "IncomeFund", "Equity"}
@@ -106,6 +110,18 @@ func (h *History) drawUniverse() {
 		cpool = append(append([]string{}, comPool...), comPoolUni...)
 	}
 	nAcc := rapid.IntRange(3, 9).Draw(t, "nAcc")
+	if h.cfg.Large {
+		nAcc = rapid.IntRange(60, 200).Draw(t, "nAccLarge")
+		pool = append([]string{}, pool...)
+		for i := 0; i < 40; i++ {
+			pool = append(pool, fmt.Sprintf("K%03d", i))
+		}
+		pool = append(pool, "Sammelkonto"+strings.Repeat("Lang", 12), strings.Repeat("W", 70))
+		cpool = append([]string{}, cpool...)
+		for i := 0; i < 40; i++ {
+			cpool = append(cpool, fmt.Sprintf("Q%02d", i))
+		}
+	}
 	seen := map[string]bool{}
 	add := func(name string, accrual bool) {
 		if seen[name] {
@@ -125,6 +141,9 @@ func (h *History) drawUniverse() {
 	for len(h.accs) < nAcc {
 		typ := rapid.SampledFrom(typeNames).Draw(t, "type")
 		depth := rapid.SampledFrom([]int{1, 1, 1, 2, 2, 3}).Draw(t, "depth")
+		if h.cfg.Large && rapid.IntRange(0, 9).Draw(t, "deepPath") == 0 {
+			depth = rapid.IntRange(4, 9).Draw(t, "depthLarge")
+		}
 		var segs []string
 		// sometimes extend an existing account of the same type (prefix relationships)
 		if rapid.IntRange(0, 3).Draw(t, "ext") == 0 {
@@ -173,6 +192,9 @@ func (h *History) drawUniverse() {
 		add(rapid.SampledFrom([]string{"Assets:Accrual", "Liabilities:Accrued", "Equity:Accrual"}).Draw(t, "accrualAcc"), true)
 	}
 	nCom := rapid.IntRange(1, 4).Draw(t, "nCom")
+	if h.cfg.Large {
+		nCom = rapid.IntRange(10, 40).Draw(t, "nComLarge")
+	}
 	perm := rapid.Permutation(cpool).Draw(t, "coms")
 	h.coms = append([]string{}, perm[:nCom]...)
 	h.parent = make([]int, nCom)
@@ -459,12 +481,31 @@ func (h *History) run() {
 	if lo > cfg.MaxActions {
 		lo = cfg.MaxActions
 	}
+	if cfg.Large {
+		lo = cfg.MaxActions / 2
+		// the header of a real ledger: most accounts are opened up front
+		for _, a := range h.accs {
+			if !a.open && !a.accrual && rapid.IntRange(0, 4).Draw(t, "openUpFront") != 0 {
+				h.emitOpen(a)
+			}
+		}
+	}
 	n := rapid.IntRange(lo, cfg.MaxActions).Draw(t, "nActions")
 	acts := []int{0, 0, 1, 1, 1, 1, 1, 2, 2, 3, 4, 4, 5, 6, 6, 7}
 	if cfg.Prices > 0 {
 		acts = append(acts, 4, 4, 4, 1)
 	}
+	burst := 0
 	for step := 0; step < n; step++ {
+		if cfg.Large && burst == 0 && rapid.IntRange(0, 99).Draw(t, "burst") == 0 {
+			// hundreds of directives on one day (a month-end batch import)
+			burst = rapid.IntRange(200, 700).Draw(t, "burstLen")
+		}
+		if burst > 0 {
+			burst--
+			h.step(rapid.SampledFrom([]int{0, 1, 1, 1, 1, 6, 4}).Draw(t, "burstAct"))
+			continue
+		}
 		h.advance(0)
 		h.step(rapid.SampledFrom(acts).Draw(t, "act"))
 	}
@@ -495,13 +536,20 @@ func (h *History) step(act int) {
 		nb := 1
 		if act == 6 {
 			nb = rapid.IntRange(2, 4).Draw(t, "nBookings")
+			if cfg.Large && rapid.IntRange(0, 9).Draw(t, "manyBookings") == 0 {
+				nb = rapid.IntRange(16, 40).Draw(t, "nBookingsLarge")
+			}
 		}
 		h.need(0)
 		var bs []ref.Booking
 		for i := 0; i < nb; i++ {
 			cr, dr := h.pickTwo(open)
 			cr.used, dr.used = true, true
-			bs = append(bs, ref.Booking{Credit: cr.name, Debit: dr.name, Qty: DrawQty(t, cfg.MaxDec, true), Com: pick(t, h.coms, "com")})
+			q := DrawQty(t, cfg.MaxDec, true)
+			if cfg.Large && rapid.IntRange(0, 19).Draw(t, "hugeQty") == 0 {
+				q = rapid.SampledFrom([]string{"2147483648", "4294967296.5", "9007199254740993", "18446744073709551617", "123456789012345678.12"}).Draw(t, "hugeQtyV")
+			}
+			bs = append(bs, ref.Booking{Credit: cr.name, Debit: dr.name, Qty: q, Com: pick(t, h.coms, "com")})
 		}
 		var d ref.Directive
 		h.drawPerf(&d)
@@ -734,4 +782,14 @@ func (h *History) step(act int) {
 			}
 		}
 	}
+}
+
+// MaybeLarge turns one case in oneIn into a ledger of realistic size (see HistCfg.Large).
+func MaybeLarge(t *rapid.T, cfg *HistCfg, oneIn int) bool {
+	if rapid.IntRange(0, oneIn-1).Draw(t, "largeLedger") != 0 {
+		return false
+	}
+	cfg.Large = true
+	cfg.MaxActions = rapid.SampledFrom([]int{400, 800, 1600}).Draw(t, "largeActions")
+	return true
 }
